@@ -28,6 +28,17 @@
                       (CertificateVerify, Finished, traffic secrets) is right for the deviating sequence: a self-consistent
                       misbehaving peer.  Must be given before the sender writes that flight; several may be pending.
    ocsp=1 (new)       client asks for OCSP stapling, server has the EC-256 test OCSP response loaded (use key=ec)
+   dtls=1 (new)       DTLS sessions (cv/sv minor 3 = DTLS 1.2, 2 = DTLS 1.0) through sess.h's datagram output.  Items are whole handshake
+                      messages with their 12-byte DTLS header (fragments are reassembled when collected).  On delivery a message is
+                      numbered for the sequence actually delivered: message_seq = number of non-retransmitted handshake messages this
+                      direction has delivered so far (so after a deletion / insertion / duplication the later messages carry the
+                      message_seq a peer sending that sequence would use); a retransmitted copy keeps the number its original got.
+                      Records get the receiver's expected epoch and a fresh record sequence number; protected ones are sealed with the
+                      receiver's read key (AES-GCM: explicit nonce = epoch|seq, AAD = epoch|seq|type|version|length).
+                      pmtu=N: matrixDtlsSetPmtu(N) (the sender fragments);  frag=N: the harness delivers every handshake message larger
+                      than N bytes as fragments of N bytes, one record each;  resend=1: let the library retransmit flights (default:
+                      a retransmission request is recorded and not followed - retransmission is C16's subject)
+   mdup <dir> <i> [stale]   duplicate; with `stale` the copy is a retransmission (keeps the original's message_seq)
    st                 snapshots of both sides
    gate13 <role> <hs>                      256-bit map of verif_tls13CheckHsState over all message types
    gate12 <role> <hs>                      reaction of parseSSLHandshake's gate to each of the 256 types, for each of the 64 flag subsets
@@ -54,6 +65,15 @@ void __wrap_psAesEncryptGCM(psAesGcm_t *ctx, const unsigned char *pt, unsigned c
         }
     }
     __real_psAesEncryptGCM(ctx, pt, ct, len);
+}
+
+/* ---------------------------------------------------------------- DTLS: retransmissions are not followed unless asked for */
+static int g_allow_resend = 0, g_resend_requests = 0;
+int32_t __real_matrixDtlsGetOutdata(ssl_t *ssl, unsigned char **buf);
+int32_t __wrap_matrixDtlsGetOutdata(ssl_t *ssl, unsigned char **buf)
+{
+    if (ssl && ssl->outlen == 0 && !g_allow_resend) { g_resend_requests++; return 0; }   /* would rebuild the last flight */
+    return __real_matrixDtlsGetOutdata(ssl, buf);
 }
 
 /* ---------------------------------------------------------------- transcript-hash observation */
@@ -90,12 +110,18 @@ int32_t __wrap_tls13TranscriptHashUpdate(ssl_t *ssl, const unsigned char *in, ps
 /* ---------------------------------------------------------------- items */
 #define MAXIT 256
 #define K_RAW (-1)
-typedef struct { int kind, t, g; unsigned char *b; size_t len; int was_sealed; unsigned char vmaj, vmin; } item_t;   /* g: type the message was created with */
+typedef struct { int kind, t, g; unsigned char *b; size_t len; int was_sealed; unsigned char vmaj, vmin; int msn, retx; } item_t;   /* g: type the message was created with; DTLS: msn = message_seq the sender gave it (-1: made by the script), retx: retransmitted copy */
 static item_t g_it[2][MAXIT]; static int g_nit[2];
 static unsigned char *g_hsbuf[2]; static size_t g_hslen[2]; static int g_hssealed[2];
 static unsigned char g_vmaj[2] = { 3, 3 }, g_vmin[2] = { 3, 3 };
-#define NSLOT 16
+#define NSLOT 32
 static item_t g_slot[NSLOT];
+#define HHL (g_sdtls ? 12 : 4)          /* handshake header length of the current scenario */
+static int g_frag = 0;                  /* DTLS: deliver handshake messages in fragments of this many bytes */
+static int g_next_msn[2], g_max_orig[2], g_msn_map[2][256];   /* delivery numbering / retransmission detection per direction */
+static unsigned long g_dseq[2];         /* DTLS record sequence numbers the harness hands out per direction */
+static struct { int msn, type; size_t len, got; unsigned char *buf; } g_fr[2];   /* fragment reassembly of the sender's output */
+static size_t hs_body_len(const unsigned char *m) { return ((size_t) m[1] << 16) + ((size_t) m[2] << 8) + m[3]; }
 
 /* ---------------------------------------------------------------- consistent deviations of the sender (mtamper) */
 #define T_OMIT 0
@@ -108,22 +134,43 @@ static const tamper_t *tamper_find(int d, int type, int occ) {
     for (int i = 0; i < g_ntamper; i++) if (g_tamper[i].dir == d && g_tamper[i].type == type && g_tamper[i].occ == occ) return &g_tamper[i];
     return NULL;
 }
+static int g_tshift[2];      /* DTLS: what the tampers so far add to the message_seq of the sender's later messages */
+static void set_msn(unsigned char *m, int msn) { m[4] = (unsigned char) (msn >> 8); m[5] = (unsigned char) msn; }
+static int get_msn(const unsigned char *m) { return (m[4] << 8) | m[5]; }
+/* a message in the handshake-header format of the current scenario (slots may come from a TLS or a DTLS scenario) */
+static unsigned char *fit_header(const unsigned char *b, size_t len, size_t *outlen) {
+    size_t bl = hs_body_len(b); unsigned char *o;
+    int src_dtls = (len == 12 + bl), dst_dtls = g_sdtls;
+    if (src_dtls == dst_dtls || (len != 4 + bl && len != 12 + bl)) { o = malloc(len + 1); memcpy(o, b, len); *outlen = len; return o; }
+    if (dst_dtls) { o = malloc(len + 9); memcpy(o, b, 4); memset(o + 4, 0, 5); memcpy(o + 9, b + 1, 3); memcpy(o + 12, b + 4, bl); *outlen = bl + 12; }
+    else { o = malloc(len); memcpy(o, b, 4); memcpy(o + 4, b + 12, bl); *outlen = bl + 4; }
+    return o;
+}
 /* called for every transcript-hash update; returns 1 if it took care of the update */
 static int tamper_hash(ssl_t *ssl, const unsigned char *in, psSize_t len, hashfn_t real, int32_t *rc) {
-    int d;
-    if (len < 4) return 0;
+    int d; size_t hh = (size_t) HHL;
+    if (len < hh) return 0;
     if (g_c.ssl && ssl == g_c.ssl) d = 0; else if (g_s.ssl && ssl == g_s.ssl) d = 1; else return 0;
     /* a RECEIVED message (the one being delivered right now) is not ours */
     if (ssl == g_cur_ssl && g_cur_msg && len == g_cur_len && memcmp(in, g_cur_msg, len) == 0) return 0;
     /* only whole messages: header length must match */
-    if (4 + ((size_t) in[1] << 16) + ((size_t) in[2] << 8) + in[3] != (size_t) len) return 0;
+    if (hh + hs_body_len(in) != (size_t) len) return 0;
     int occ = ++g_hcount[d][in[0]];
     const tamper_t *t = tamper_find(d, in[0], occ);
-    if (!t) return 0;
+    if (!t && !(g_sdtls && g_tshift[d])) return 0;
     *rc = PS_SUCCESS;
-    if (t->mode == T_OMIT) return 1;
-    if (t->mode == T_AFTER) *rc = real(ssl, in, len);
-    if (g_slot[t->slot].b && g_slot[t->slot].kind == 22) { int32_t r2 = real(ssl, g_slot[t->slot].b, (psSize_t) g_slot[t->slot].len); if (*rc >= 0) *rc = r2; }
+    unsigned char *own = malloc(len + 1); memcpy(own, in, len);
+    if (g_sdtls) set_msn(own, get_msn(in) + g_tshift[d]);        /* the number this message has in the sequence really sent */
+    if (!t) { *rc = real(ssl, own, len); free(own); return 1; }
+    if (t->mode == T_OMIT) { g_tshift[d]--; free(own); return 1; }
+    if (t->mode == T_AFTER) *rc = real(ssl, own, len);
+    if (g_slot[t->slot].b && g_slot[t->slot].kind == 22) {
+        size_t sl; unsigned char *sm = fit_header(g_slot[t->slot].b, g_slot[t->slot].len, &sl);
+        if (g_sdtls) set_msn(sm, get_msn(own) + (t->mode == T_AFTER ? 1 : 0));
+        int32_t r2 = real(ssl, sm, (psSize_t) sl); if (*rc >= 0) *rc = r2; free(sm);
+    }
+    if (t->mode == T_AFTER) g_tshift[d]++;
+    free(own);
     return 1;
 }
 
@@ -132,61 +179,93 @@ static void item_copy(item_t *d, const item_t *s) { *d = *s; d->b = malloc(s->le
 static void items_reset(void) {
     for (int d = 0; d < 2; d++) { for (int i = 0; i < g_nit[d]; i++) item_free(&g_it[d][i]); g_nit[d] = 0; g_hslen[d] = 0; g_pth[d] = g_ptt[d] = 0; }
     g_ntamper = 0; memset(g_hcount, 0, sizeof g_hcount); memset(g_ecount, 0, sizeof g_ecount);
+    memset(g_next_msn, 0, sizeof g_next_msn); g_max_orig[0] = g_max_orig[1] = -1; memset(g_msn_map, 0xff, sizeof g_msn_map);
+    g_dseq[0] = g_dseq[1] = 0; g_fr[0].got = g_fr[1].got = 0; g_fr[0].len = g_fr[1].len = 0; g_tshift[0] = g_tshift[1] = 0;
 }
 static void item_add(int d, int kind, int t, const unsigned char *b, size_t len, int sealed) {
     if (g_nit[d] >= MAXIT) return;
-    item_t *it = &g_it[d][g_nit[d]++]; it->kind = kind; it->t = t; it->g = t; it->b = malloc(len + 1); memcpy(it->b, b, len); it->len = len;
+    item_t *it = &g_it[d][g_nit[d]++]; it->kind = kind; it->t = t; it->g = t; it->b = malloc(len + 1); memcpy(it->b, b, len); it->len = len; it->msn = -1; it->retx = 0;
     it->was_sealed = sealed; it->vmaj = g_vmaj[d]; it->vmin = g_vmin[d];
 }
 static void item_insert(int d, int i, const item_t *src) {
     if (g_nit[d] >= MAXIT) return; if (i > g_nit[d]) i = g_nit[d]; if (i < 0) i = 0;
     memmove(&g_it[d][i + 1], &g_it[d][i], sizeof(item_t) * (size_t) (g_nit[d] - i)); g_nit[d]++;
     item_copy(&g_it[d][i], src); g_it[d][i].vmaj = g_vmaj[d]; g_it[d][i].vmin = g_vmin[d];
+    g_it[d][i].msn = -1; g_it[d][i].retx = 0;
+    if (src->kind == 22 && src->len >= 4) { size_t nl; unsigned char *nb = fit_header(src->b, src->len, &nl); free(g_it[d][i].b); g_it[d][i].b = nb; g_it[d][i].len = nl; }
 }
 static void item_remove(int d, int i) {
     if (i < 0 || i >= g_nit[d]) return; item_free(&g_it[d][i]);
     memmove(&g_it[d][i], &g_it[d][i + 1], sizeof(item_t) * (size_t) (g_nit[d] - i - 1)); g_nit[d]--;
 }
 
-/* split complete handshake messages off the reassembly buffer */
+/* one complete handshake message of the sender (header format of the scenario) becomes an item - unless an mtamper edits the wire */
+static void emit_hs(int d, const unsigned char *m, size_t ml, int sealed) {
+    int ty = m[0], occ = ++g_ecount[d][ty];
+    const tamper_t *t = g_ntamper ? tamper_find(d, ty, occ) : NULL;
+    if (!t || t->mode == T_AFTER) {
+        item_add(d, 22, ty, m, ml, sealed);
+        if (g_sdtls) {
+            item_t *it = &g_it[d][g_nit[d]-1]; it->msn = get_msn(m);
+            if (it->msn <= g_max_orig[d]) it->retx = 1; else g_max_orig[d] = it->msn;
+        }
+    } else if (g_sdtls && get_msn(m) > g_max_orig[d]) g_max_orig[d] = get_msn(m);
+    if (t && t->mode != T_OMIT && g_slot[t->slot].b) {
+        item_insert(d, g_nit[d], &g_slot[t->slot]); g_it[d][g_nit[d]-1].was_sealed = sealed;
+    }
+}
+/* split complete handshake messages off the reassembly buffer (TLS: messages may span / share records) */
 static void hs_extract(int d) {
     size_t off = 0;
     while (g_hslen[d] - off >= 4) {
-        size_t ml = 4 + ((size_t) g_hsbuf[d][off+1] << 16) + ((size_t) g_hsbuf[d][off+2] << 8) + g_hsbuf[d][off+3];
+        size_t ml = 4 + hs_body_len(g_hsbuf[d] + off);
         if (g_hslen[d] - off < ml) break;
-        {
-            int ty = g_hsbuf[d][off], occ = ++g_ecount[d][ty];
-            const tamper_t *t = g_ntamper ? tamper_find(d, ty, occ) : NULL;
-            if (!t || t->mode == T_AFTER) item_add(d, 22, ty, g_hsbuf[d] + off, ml, g_hssealed[d]);
-            if (t && t->mode != T_OMIT && g_slot[t->slot].b) {
-                item_insert(d, g_nit[d], &g_slot[t->slot]); g_it[d][g_nit[d]-1].was_sealed = g_hssealed[d];
-            }
-        }
+        emit_hs(d, g_hsbuf[d] + off, ml, g_hssealed[d]);
         off += ml;
     }
     memmove(g_hsbuf[d], g_hsbuf[d] + off, g_hslen[d] - off); g_hslen[d] -= off;
+}
+/* DTLS: a handshake record holds whole messages or fragments (12-byte header each); fragments of one message arrive in order */
+static void hs_extract_dtls(int d, const unsigned char *b, size_t bl, int sealed) {
+    size_t off = 0;
+    while (bl - off >= 12) {
+        const unsigned char *m = b + off; size_t len = hs_body_len(m);
+        size_t fo = ((size_t) m[6] << 16) + ((size_t) m[7] << 8) + m[8], fl = ((size_t) m[9] << 16) + ((size_t) m[10] << 8) + m[11];
+        if (bl - off < 12 + fl) break;
+        if (fo == 0 && fl == len) emit_hs(d, m, 12 + len, sealed);
+        else {
+            if (fo == 0 || g_fr[d].len != len || g_fr[d].msn != get_msn(m)) {
+                free(g_fr[d].buf); g_fr[d].buf = malloc(len + 13); g_fr[d].len = len; g_fr[d].got = 0; g_fr[d].msn = get_msn(m); g_fr[d].type = m[0];
+                memcpy(g_fr[d].buf, m, 12); memset(g_fr[d].buf + 6, 0, 3); memcpy(g_fr[d].buf + 9, m + 1, 3);
+            }
+            if (fo + fl <= len) { memcpy(g_fr[d].buf + 12 + fo, m + 12, fl); g_fr[d].got += fl; }
+            if (g_fr[d].got >= len) { emit_hs(d, g_fr[d].buf, 12 + len, sealed); g_fr[d].got = 0; g_fr[d].len = 0; }
+        }
+        off += 12 + fl;
+    }
 }
 
 /* open every record queued by sess.h's flush_out into items */
 static void collect_dir(int d) {
     queue_t *q = d ? &g_s2c : &g_c2s; peer_t *from = d ? &g_s : &g_c;
     if (!g_hsbuf[d]) g_hsbuf[d] = malloc(QCAP);
-    size_t l;
+    size_t l, rh = (size_t) SESS_RHL;
     while ((l = q_reclen(q)) != 0) {
         rmeta_t m = q_meta_pop(q); unsigned char *r = q->b; int outer = r[0];
-        const unsigned char *body = r + 5; size_t bl = l - 5; int kind = outer; int have = 1;
+        const unsigned char *body = r + rh; size_t bl = l - rh; int kind = outer; int have = 1;
         g_vmaj[d] = r[1]; g_vmin[d] = r[2];
         if (m.sealed == 1) {
             int is_gcm = from->ssl && from->ssl->cipher && (from->ssl->cipher->flags & CRYPTO_FLAGS_GCM);
             if (is_gcm && g_pth[d] != g_ptt[d]) {
                 ptrec_t *p = &g_ptlog[d][g_pth[d]++ % PTLOG]; body = p->pt; bl = p->len;
-                if (m.inner >= 0 && outer == 23 && ACTV_VER(from->ssl, v_tls_1_3_any)) {   /* TLSInnerPlaintext: strip padding + type */
+                if (!g_sdtls && m.inner >= 0 && outer == 23 && ACTV_VER(from->ssl, v_tls_1_3_any)) {   /* TLSInnerPlaintext: strip padding + type */
                     while (bl > 0 && body[bl-1] == 0) bl--;
                     if (bl > 0) { kind = body[bl-1]; bl--; } else have = 0;
                 }
             } else have = 0;
         }
         if (!have) item_add(d, K_RAW, outer, r, l, 1);
+        else if (kind == 22 && g_sdtls) hs_extract_dtls(d, body, bl, m.sealed == 1);
         else if (kind == 22) {
             if (g_hslen[d] + bl <= QCAP) { memcpy(g_hsbuf[d] + g_hslen[d], body, bl); g_hslen[d] += bl; }
             g_hssealed[d] = m.sealed == 1; hs_extract(d);
@@ -230,6 +309,28 @@ static size_t seal12(ssl_t *to, int type, unsigned char vmaj, unsigned char vmin
     return 5 + rl;
 }
 
+#ifdef USE_DTLS
+/* DTLS record for the receiver: its expected epoch, a fresh sequence number; sealed (AES-GCM) when `seal` */
+static size_t dtls_record(ssl_t *to, int d, int type, unsigned char vmaj, unsigned char vmin, const unsigned char *b, size_t len, unsigned char *out, int seal) {
+    unsigned char es[8]; unsigned long sq = g_dseq[d]++;
+    es[0] = to->expectedEpoch[0]; es[1] = to->expectedEpoch[1]; es[2] = 0; es[3] = 0;
+    es[4] = (unsigned char) (sq >> 24); es[5] = (unsigned char) (sq >> 16); es[6] = (unsigned char) (sq >> 8); es[7] = (unsigned char) sq;
+    out[0] = (unsigned char) type; out[1] = vmaj; out[2] = vmin; memcpy(out + 3, es, 8);
+    if (!seal) { out[11] = (unsigned char) (len >> 8); out[12] = (unsigned char) len; memcpy(out + 13, b, len); return 13 + len; }
+    psAesGcm_t ctx; unsigned char nonce[12], aad[13]; size_t rl = 8 + len + 16;
+    memset(&ctx, 0, sizeof ctx);
+    if (psAesInitGCM(&ctx, to->sec.readKey, to->cipher->keySize) < 0) return 0;
+    memcpy(nonce, to->sec.readIV, 4); memcpy(nonce + 4, es, 8);
+    memcpy(aad, es, 8); aad[8] = (unsigned char) type; aad[9] = psEncodeVersionMaj(GET_NGTD_VER(to)); aad[10] = psEncodeVersionMin(GET_NGTD_VER(to));
+    aad[11] = (unsigned char) (len >> 8); aad[12] = (unsigned char) len;
+    out[11] = (unsigned char) (rl >> 8); out[12] = (unsigned char) rl; memcpy(out + 13, es, 8);
+    g_resealing = 1;
+    psAesReadyGCM(&ctx, nonce, aad, 13); psAesEncryptGCM(&ctx, b, out + 21, (uint32) len); psAesGetGCMTag(&ctx, 16, out + 21 + len);
+    g_resealing = 0; psAesClearGCM(&ctx);
+    return 13 + rl;
+}
+#endif
+
 /* ---------------------------------------------------------------- snapshots */
 static void print_xsnap(peer_t *p) {
     ssl_t *s = p->ssl;
@@ -240,16 +341,20 @@ static void print_xsnap(peer_t *p) {
            s->sid ? (int) s->sid->sessionTicketState : -1, (s->extFlags.status_request || s->extFlags.status_request_v2) ? 1 : 0,
            s->sec.tls13UsingPsk ? 1 : 0, s->tls13IncorrectDheKeyShare ? 1 : 0, (s->keys && s->keys->sessTickets) ? 1 : 0,
            s->tls13GotCertificateRequest ? 1 : 0, (int) s->decState, s->cipher ? (unsigned) s->cipher->ident : 0);
+#ifdef USE_DTLS
+    if (s->flags & SSL_FLAGS_DTLS) printf(",lm=%d,hc=%d,rq=%d", (int) s->lastMsn, s->haveCookie ? 1 : 0, g_resend_requests);
+#endif
 }
 
 /* ---------------------------------------------------------------- delivery of one item */
 /* what the BYTES of a hello say: bit0 = selects / offers TLS 1.3 (supported_versions holds 0x0304), bit1 = HelloRetryRequest random */
 static int hello_bits(const item_t *it) {
     static const unsigned char hrr[32] = { 0xCF,0x21,0xAD,0x74,0xE5,0x9A,0x61,0x11,0xBE,0x1D,0x8C,0x02,0x1E,0x65,0xB8,0x91,0xC2,0xA2,0x11,0x16,0x7A,0xBB,0x8C,0x5E,0x07,0x9E,0x09,0xE2,0xC8,0xA8,0x33,0x9C };
-    const unsigned char *b = it->b; size_t n = it->len, o; int bits = 0;
-    if (it->kind != 22 || n < 4 + 2 + 32 + 1) return 0;
-    if (it->t == 2 && memcmp(b + 6, hrr, 32) == 0) bits |= 2;
-    o = 4 + 2 + 32; if (o >= n) return bits; o += 1 + b[o];                     /* session id */
+    const unsigned char *b = it->b; size_t n = it->len, o, hh = (size_t) HHL; int bits = 0;
+    if (it->kind != 22 || n < hh + 2 + 32 + 1) return 0;
+    if (it->t == 2 && memcmp(b + hh + 2, hrr, 32) == 0) bits |= 2;
+    o = hh + 2 + 32; if (o >= n) return bits; o += 1 + b[o];                     /* session id */
+    if (it->t == 1 && g_sdtls) { if (o >= n) return bits; if (b[o] > 0) bits |= 4; o += 1 + b[o]; }   /* DTLS ClientHello: cookie (bit 2: not empty) */
     if (it->t == 1) { if (o + 2 > n) return bits; o += 2 + ((size_t) b[o] << 8) + b[o+1]; if (o + 1 > n) return bits; o += 1 + b[o]; }   /* suites, compression */
     else if (it->t == 2) o += 3; else return bits;
     if (o + 2 > n) return bits; size_t el = ((size_t) b[o] << 8) + b[o+1]; o += 2; size_t e = o + el; if (e > n) e = n;
@@ -262,25 +367,61 @@ static int hello_bits(const item_t *it) {
     return bits;
 }
 static char kindch(const item_t *it) { return it->kind == 22 ? 'H' : it->kind == 20 ? 'C' : it->kind == 21 ? 'A' : it->kind == 23 ? 'D' : 'R'; }
-static void deliver_item(int d, const item_t *it) {
+static void deliver_item(int d, const item_t *it0) {
     peer_t *to = d ? &g_c : &g_s; ssl_t *s = to->ssl;
     if (!s) { printf("step:%c nil ", d ? 'c' : 's'); return; }
-    unsigned char *rec = malloc(it->len + 64); size_t rl = 0; char form = 'p';
+    item_t itc; item_copy(&itc, it0); const item_t *it = &itc;
+    unsigned char *rec = malloc(it->len + 96); size_t rl = 0; char form = 'p';
     int is13 = ACTV_VER(s, v_tls_1_3_any) ? 1 : 0, rsec = (s->flags & SSL_FLAGS_READ_SECURE) ? 1 : 0;
     int gcm = s->cipher && (s->cipher->flags & CRYPTO_FLAGS_GCM);
-    if (it->kind == K_RAW) { memcpy(rec, it->b, it->len); rl = it->len; form = 'r'; }
-    else if (rsec && gcm && is13 && it->kind != 20) { rl = seal13(s, it->kind, it->b, it->len, rec); form = 's'; }
-    else if (rsec && gcm && !is13) { rl = seal12(s, it->kind, it->vmaj, it->vmin, it->b, it->len, rec); form = 's'; }
-    else {
-        rec[0] = (unsigned char) it->kind; rec[1] = it->vmaj; rec[2] = it->vmin; rec[3] = (unsigned char) (it->len >> 8); rec[4] = (unsigned char) it->len;
-        memcpy(rec + 5, it->b, it->len); rl = 5 + it->len; form = rsec && !(is13 && it->kind == 20) ? 'x' : 'p';
+    int dt = 0, msn_out = -1;
+#ifdef USE_DTLS
+    dt = (s->flags & SSL_FLAGS_DTLS) ? 1 : 0;
+    if (dt && it->kind == 22 && it->len >= 12) {
+        /* message_seq of the sequence actually delivered; a retransmitted copy keeps the number of its original */
+        if (it->retx && it->msn >= 0 && it->msn < 256 && g_msn_map[d][it->msn] >= 0) msn_out = g_msn_map[d][it->msn];
+        else { msn_out = g_next_msn[d]++; if (it->msn >= 0 && it->msn < 256) g_msn_map[d][it->msn] = msn_out; }
+        set_msn(itc.b, msn_out);
     }
-    printf("step:%c m=%c:%d:%d:%d f=%c l=%zu pre=", d ? 'c' : 's', kindch(it), it->t, it->g, hello_bits(it), form, it->len); print_xsnap(to); printf(" ");
+#endif
+    printf("step:%c m=%c:%d:%d:%d f=", d ? 'c' : 's', kindch(it), it->t, it->g, hello_bits(it));
     g_cur_ssl = s; g_cur_msg = it->kind == 22 ? it->b : NULL; g_cur_len = it->len; g_hashed = 0;
-    feed(to, rec, rl, 0);
+    if (it->kind == K_RAW) form = 'r';
+    else if (dt) form = (rsec && gcm) ? 's' : (rsec ? 'x' : 'p');
+    else if (rsec && gcm && is13 && it->kind != 20) form = 's';
+    else if (rsec && gcm && !is13) form = 's';
+    else form = rsec && !(is13 && it->kind == 20) ? 'x' : 'p';
+    printf("%c l=%zu", form, it->len);
+    if (dt) printf(" q=%d:%d", msn_out, it->retx);
+    printf(" pre="); print_xsnap(to); printf(" ");
+    if (it->kind == K_RAW) { memcpy(rec, it->b, it->len); rl = it->len; feed(to, rec, rl, 0); }
+#ifdef USE_DTLS
+    else if (dt && it->kind == 22 && g_frag > 0 && it->len > 12 + (size_t) g_frag) {
+        /* the message in fragments of g_frag bytes, one record (= one datagram) each */
+        size_t bl = it->len - 12, off = 0; unsigned char *fm = malloc(12 + (size_t) g_frag);
+        while (off < bl && !(s->flags & (SSL_FLAGS_ERROR | SSL_FLAGS_CLOSED))) {
+            size_t fl = bl - off > (size_t) g_frag ? (size_t) g_frag : bl - off;
+            memcpy(fm, it->b, 12); fm[6] = (unsigned char) (off >> 16); fm[7] = (unsigned char) (off >> 8); fm[8] = (unsigned char) off;
+            fm[9] = (unsigned char) (fl >> 16); fm[10] = (unsigned char) (fl >> 8); fm[11] = (unsigned char) fl; memcpy(fm + 12, it->b + 12 + off, fl);
+            rl = dtls_record(s, d, 22, it->vmaj, it->vmin, fm, 12 + fl, rec, rsec && gcm);
+            feed(to, rec, rl, 0); off += fl;
+        }
+        free(fm); g_cur_msg = NULL;
+    }
+    else if (dt) { rl = dtls_record(s, d, it->kind, it->vmaj, it->vmin, it->b, it->len, rec, rsec && gcm); feed(to, rec, rl, 0); }
+#endif
+    else {
+        if (form == 's' && is13) rl = seal13(s, it->kind, it->b, it->len, rec);
+        else if (form == 's') rl = seal12(s, it->kind, it->vmaj, it->vmin, it->b, it->len, rec);
+        else {
+            rec[0] = (unsigned char) it->kind; rec[1] = it->vmaj; rec[2] = it->vmin; rec[3] = (unsigned char) (it->len >> 8); rec[4] = (unsigned char) it->len;
+            memcpy(rec + 5, it->b, it->len); rl = 5 + it->len;
+        }
+        feed(to, rec, rl, 0);
+    }
     g_cur_ssl = NULL; g_cur_msg = NULL;
     printf("post="); print_xsnap(to); printf(" h=%d ", g_hashed);
-    free(rec);
+    free(rec); item_free(&itc);
 }
 static int md(int d, int n) {
     int k = 0;
@@ -295,7 +436,7 @@ static int md(int d, int n) {
 }
 
 /* ---------------------------------------------------------------- scenario creation (sess_new + PSK / groups) */
-typedef struct { int psk, psk13, ncg, nsg, nshare, ocsp; uint16_t cg[4], sg[4]; } xcfg_t;
+typedef struct { int psk, psk13, ncg, nsg, nshare, ocsp, pmtu, frag, resend; uint16_t cg[4], sg[4]; } xcfg_t;
 static int hs_new(scfg_t *c, xcfg_t *x) {
     int32 rc;
     peer_free(&g_c); peer_free(&g_s);
@@ -304,9 +445,14 @@ static int hs_new(scfg_t *c, xcfg_t *x) {
     if (!c->keep_skeys) {
         if (g_skeys_persist) { matrixSslDeleteKeys(g_skeys_persist); g_skeys_persist = NULL; }
         if (g_saved_sid) { matrixSslDeleteSessionId(g_saved_sid); g_saved_sid = NULL; }
+        if (c->dtls) ent_seed(c->seed ^ 0x44544c53);      /* matrixSslOpen draws the DTLS cookie secret */
         matrixSslClose(); if (matrixSslOpen() < 0) return -9;
         g_vtime = 1592222400;
     }
+    g_sdtls = c->dtls ? 1 : 0; g_frag = x->frag; g_allow_resend = x->resend; g_resend_requests = 0;
+#ifdef USE_DTLS
+    matrixDtlsSetPmtu(x->pmtu > 0 ? x->pmtu : -1);
+#endif
     q_init(&g_c2s); q_init(&g_s2c);
     ent_seed(c->seed);
     g_pin_year = c->year ? c->year : 2020;
@@ -334,7 +480,8 @@ static int hs_new(scfg_t *c, xcfg_t *x) {
     sslSessOpts_t so; memset(&so, 0, sizeof so);
     psProtocolVersion_t v[4];
     for (int i = 0; i < c->nsver; i++) v[i] = minor2ver(c->sver[i]);
-    if (c->nsver && (rc = matrixSslSessOptsSetServerTlsVersions(&so, v, c->nsver)) < 0) return rc - 3000;
+    if (c->dtls) so.versionFlag = dtls_version_flag(c->sver, c->nsver);
+    else if (c->nsver && (rc = matrixSslSessOptsSetServerTlsVersions(&so, v, c->nsver)) < 0) return rc - 3000;
     if (x->nsg && (rc = matrixSslSessOptsSetKeyExGroups(&so, x->sg, (psSize_t) x->nsg, 1)) < 0) return rc - 3100;
     if (c->ems < 0) so.extendedMasterSecret = -1;
     g_s.cb_mode = c->scb;
@@ -343,7 +490,8 @@ static int hs_new(scfg_t *c, xcfg_t *x) {
     if (c->cauth && c->scb == 0) g_s.ssl->sec.validateCert = NULL;
     memset(&so, 0, sizeof so);
     for (int i = 0; i < c->ncver; i++) v[i] = minor2ver(c->cver[i]);
-    if (c->ncver && (rc = matrixSslSessOptsSetClientTlsVersions(&so, v, c->ncver)) < 0) return rc - 5000;
+    if (c->dtls) so.versionFlag = dtls_version_flag(c->cver, c->ncver);
+    else if (c->ncver && (rc = matrixSslSessOptsSetClientTlsVersions(&so, v, c->ncver)) < 0) return rc - 5000;
     if (x->ncg && (rc = matrixSslSessOptsSetKeyExGroups(&so, x->cg, (psSize_t) x->ncg, (psSize_t) (x->nshare ? x->nshare : 1))) < 0) return rc - 5100;
     if (c->ems < 0) so.extendedMasterSecret = -1;
     if (c->ticket) so.ticketResumption = 1;
@@ -381,6 +529,10 @@ static void do_new(char **a, int n) {
         else if (!strcmp(a[i], "psk")) x.psk = atoi(v);
         else if (!strcmp(a[i], "psk13")) x.psk13 = atoi(v);
         else if (!strcmp(a[i], "ocsp")) x.ocsp = atoi(v);
+        else if (!strcmp(a[i], "dtls")) c.dtls = atoi(v);
+        else if (!strcmp(a[i], "pmtu")) x.pmtu = atoi(v);
+        else if (!strcmp(a[i], "frag")) x.frag = atoi(v);
+        else if (!strcmp(a[i], "resend")) x.resend = atoi(v);
         else if (!strcmp(a[i], "nshare")) x.nshare = atoi(v);
         else if (!strcmp(a[i], "cgrp")) { int t[4]; x.ncg = parse_list(v, t, 4); for (int k = 0; k < x.ncg; k++) x.cg[k] = (uint16_t) t[k]; }
         else if (!strcmp(a[i], "sgrp")) { int t[4]; x.nsg = parse_list(v, t, 4); for (int k = 0; k < x.nsg; k++) x.sg[k] = (uint16_t) t[k]; }
@@ -480,7 +632,7 @@ static void run_cmd(char **a, int n) {
         printf("mrun:%d", k);
     }
     else if (!strcmp(a[0], "mdel") && n >= 3) { collect(); int d = dirof(a[1]), i = atoi(a[2]); if (i < g_nit[d]) { item_remove(d, i); printf("mdel:ok"); } else printf("mdel:range"); }
-    else if (!strcmp(a[0], "mdup") && n >= 3) { collect(); int d = dirof(a[1]), i = atoi(a[2]); if (i < g_nit[d]) { item_t t; item_copy(&t, &g_it[d][i]); item_insert(d, i + 1, &t); item_free(&t); printf("mdup:ok"); } else printf("mdup:range"); }
+    else if (!strcmp(a[0], "mdup") && n >= 3) { collect(); int d = dirof(a[1]), i = atoi(a[2]); if (i < g_nit[d]) { item_t t; item_copy(&t, &g_it[d][i]); item_insert(d, i + 1, &t); if (n >= 4 && !strcmp(a[3], "stale")) { g_it[d][i+1].msn = t.msn; g_it[d][i+1].retx = 1; } item_free(&t); printf("mdup:ok"); } else printf("mdup:range"); }
     else if (!strcmp(a[0], "mswap") && n >= 3) { collect(); int d = dirof(a[1]), i = atoi(a[2]); if (i + 1 < g_nit[d]) { item_t t = g_it[d][i]; g_it[d][i] = g_it[d][i+1]; g_it[d][i+1] = t; printf("mswap:ok"); } else printf("mswap:range"); }
     else if (!strcmp(a[0], "msub") && n >= 4) { collect(); int d = dirof(a[1]), i = atoi(a[2]); if (i < g_nit[d] && g_it[d][i].kind == 22) { g_it[d][i].t = atoi(a[3]); g_it[d][i].b[0] = (unsigned char) atoi(a[3]); printf("msub:ok"); } else printf("msub:range"); }
     else if (!strcmp(a[0], "mins") && n >= 4) {
